@@ -38,6 +38,8 @@ def target_functions():
     # two successful paths that store the same term under different path constraints: require(v < 5 || v > 10); s = v
     v8 = arg(0) + [("push", 0xFF), "AND"]
     F["rng"] = ("rng(uint8)", [("push", 5)] + v8 + ["LT", ("ref", "ok"), "JUMPI"] + v8 + [("push", 10), "LT", ("ref", "ok"), "JUMPI"] + e2e.revert0() + [("label", "ok")] + sset(v8) + ["STOP"], "nonpayable")
+    # two successful paths that differ *only* in one branch condition at the same position: if (v < 4) {} s = v
+    F["setb"] = ("setb(uint8)", [("push", 4)] + v8 + ["LT", ("ref", "lo"), "JUMPI", ("label", "lo")] + sset(v8) + ["STOP"], "nonpayable")
     F["get"] = ("get()", S + ["PUSH0", "MSTORE"] + T + [("push", 32), "MSTORE", ("push", 64), "PUSH0", "RETURN"], "view")
     return F
 
@@ -95,12 +97,14 @@ def target_addr(i):
 
 
 def invariant_body(i, field, rel, c):
-    """STATICCALL target i .get(); fail with Panic(1) if the invariant is broken.  rel: 'ne' (s != c) | 'le' (s <= c)"""
+    """STATICCALL target i .get(); fail with Panic(1) if the invariant is broken.  rel: 'ne' (s != c) | 'le' (s <= c) | 'lenow' (value <= block.timestamp)"""
     load = [("pushn", 4, e2e.sel("get()")), ("push", 224), "SHL", "PUSH0", "MSTORE",
             ("push", 64), ("push", 0x40), ("push", 4), "PUSH0"] + target_addr(i) + [("push", 0xFFFFFF), "STATICCALL", "POP",
             ("push", 0x40 + (0 if field == "s" else 32)), "MLOAD"]
     if rel == "ne":
         broken = load + [("push", c), "EQ"]
+    elif rel == "lenow":  # value <= block.timestamp: broken iff TIMESTAMP < value (time never goes backwards along a call sequence)
+        broken = load + ["TIMESTAMP", "LT"]
     else:
         broken = [("push", c)] + load + ["GT"]  # value > c
     return e2e.if_then(broken, panic(1), "brk") + ["STOP"]
@@ -160,7 +164,8 @@ class Project:
 # reference: Foundry's filter resolution + BFS over call sequences
 # ---------------------------------------------------------------------------
 
-ARG_DOMAIN = {"set(uint8)": [0, 1, 2, 3, 4, 5, 7, 9, 12, 255, 256 + 3], "rng(uint8)": [0, 2, 3, 4, 5, 7, 9, 10, 11, 12, 255]}
+ARG_DOMAIN = {"set(uint8)": [0, 1, 2, 3, 4, 5, 7, 9, 12, 255, 256 + 3], "rng(uint8)": [0, 2, 3, 4, 5, 7, 9, 10, 11, 12, 255],
+              "setb(uint8)": [0, 1, 2, 3, 4, 5, 7, 9, 12, 255]}
 VALUE_DOMAIN = [0, 1]
 DEFAULT_SENDER = 0xBEEF
 
